@@ -159,6 +159,23 @@ def skippable(st: ast.stmt) -> bool:
     return False
 
 
+def _check_folder_corrupt() -> None:
+    """The meaning given to `<database folder>.corrupt()` is read off the source: Folder.corrupt loops `file.corrupt()` over its
+    files; File.corrupt writes CORRUPT under the guard `health_status == GOOD` and nowhere else."""
+    fo = find_method(class_def(parse("simulator/file_system/folder.py"), "Folder"), "corrupt")
+    fi = find_method(class_def(parse("simulator/file_system/file.py"), "File"), "corrupt")
+    loops = [x for x in ast.walk(fo) if isinstance(x, ast.For) and u(x.iter) == "self.files"
+             and any(isinstance(c, ast.Call) and u(c.func) == "file.corrupt" for c in ast.walk(x))]
+    if not loops:
+        raise Unsupported("Folder.corrupt does not call file.corrupt() on every file of self.files")
+    writes = [x for x in ast.walk(fi) if isinstance(x, ast.Assign) and u(x.targets[0]) == "self.health_status"]
+    guarded = [x for x in ast.walk(fi) if isinstance(x, ast.If)
+               and u(x.test) == "self.health_status == FileSystemItemHealthStatus.GOOD"
+               and [u(b) for b in x.body] == ["self.health_status = FileSystemItemHealthStatus.CORRUPT"] and not x.orelse]
+    if len(writes) != 1 or len(guarded) != 1:
+        raise Unsupported("File.corrupt is not `if health_status == GOOD: health_status = CORRUPT`")
+
+
 class Tr:
     def __init__(self, ret, locals_: Dict[str, str]):
         self.ret = ret            # ast.Return -> lean term
@@ -226,6 +243,14 @@ class Tr:
             if f == "self.db_file.corrupt" and not st.value.args:
                 return (f"{pad}let s := {{ s with file := s.file.map (fun h => if h = FHealth.good then FHealth.corrupt else h) }}\n"
                         + self.go(rest, env, ind))
+            # the folder API (folder.py): Folder.corrupt() calls file.corrupt() on every file of the folder and sets the folder's own
+            # health (not modelled): on the database file it is File.corrupt() - GOOD becomes CORRUPT, any other health stays.
+            # (second shift, seeded change C17-g: before, this statement was Unsupported and `C17_tr_process_sql` "did not check";
+            # now it translates and the theorems about the ENCRYPT branch are REFUTED with a counter-model.)
+            if f in ("self._return_database_folder().corrupt", "database_folder.corrupt") and not st.value.args:
+                _check_folder_corrupt()
+                return (f"{pad}let s := {{ s with file := s.file.map (fun h => if h = FHealth.good then FHealth.corrupt else h) }}\n"
+                        + self.go(rest, env, ind))
             if f == "self.db_file.repair" and not st.value.args:
                 return (f"{pad}let s := {{ s with file := s.file.map (fun h => if h = FHealth.corrupt then FHealth.good else h) }}\n"
                         + self.go(rest, env, ind))
@@ -290,6 +315,18 @@ class TrRecv:
         t = u(e)
         if t == "self._can_perform_action()":
             return "s.canAct", []
+        # the power state of the node the service runs on (second shift, blind change C17-h: before, this condition was Unsupported
+        # and the changed guard was never translated)
+        if t in ("self.software_manager.node.operating_state == NodeOperatingState.ON",
+                 "self.software_manager.node.operating_state is NodeOperatingState.ON"):
+            return "s.node.isOn", []
+        if t in ("self.software_manager.node.operating_state != NodeOperatingState.ON",
+                 "self.software_manager.node.operating_state is not NodeOperatingState.ON"):
+            return "(!s.node.isOn)", []
+        if t in ("self.operating_state == ServiceOperatingState.RUNNING", "self.operating_state is ServiceOperatingState.RUNNING"):
+            return "(s.op == SvcState.running)", []
+        if t in ("self.operating_state != ServiceOperatingState.RUNNING", "self.operating_state is not ServiceOperatingState.RUNNING"):
+            return "(!(s.op == SvcState.running))", []
         if t == "isinstance(payload, dict)":
             return "payload.isDict", []
         if t == "payload.get('type')":
